@@ -55,17 +55,18 @@ def install(pid, m, res=None):
 
 
 def detect(sid, tier="quick", check=None):
+    """one seeded change against its check, in a scratch clone of /repo (so /repo stays pristine for anything running meanwhile)"""
     d = os.path.join(V, "seeded", sid)
     pid = check or json.load(open(d + "/meta.json"))["property"]
-    rc, o = sh("git -C /repo status --porcelain")
-    assert o.strip() == "", "/repo dirty: " + o
-    rc, o = sh("git -C /repo apply %s/patch.diff" % d)
-    assert rc == 0, o
+    clone = "/tmp/verif-detect-%s-%d" % (sid, os.getpid())
+    sh("rm -rf %s && git clone -q /repo %s" % (clone, clone))
     t0 = time.time()
     try:
-        rc, o = sh("./check %s --tier %s" % (pid, tier), cwd=V)
+        rc, o = sh("git -C %s apply %s/patch.diff" % (clone, d))
+        assert rc == 0, o
+        rc, o = sh("./check %s --tier %s" % (pid, tier), cwd=V, env={"VERIF_REPO": clone, "VERIF_EVIDENCE_DIR": clone + "/.verif-evidence"})
     finally:
-        sh("git -C /repo checkout -- . ")
+        sh("rm -rf " + clone)
     lines = [l for l in o.splitlines() if l.startswith(("VIOLATION", "  what", "PASS", "FAIL", "MACHINERY", "KNOWN"))]
     print("%s on %s (%s): exit %d in %.0fs" % (sid, pid, tier, rc, time.time() - t0))
     print("\n".join(lines[:8]))
@@ -88,7 +89,7 @@ def matrix(tier="quick"):
                 res[sid] = {"property": pid, "applies": False}
                 continue
             t0 = time.time()
-            rc, o = sh("./check %s --tier %s" % (pid, tier), cwd=V, env={"VERIF_REPO": clone})
+            rc, o = sh("./check %s --tier %s" % (pid, tier), cwd=V, env={"VERIF_REPO": clone, "VERIF_EVIDENCE_DIR": clone + "/.verif-evidence"})
             sh("git -C %s checkout -- ." % clone)
             first = [l.strip() for l in o.splitlines() if l.strip().startswith("what:")][:1]
             res[sid] = {"property": pid, "exit": rc, "detected": rc == 1, "wall_s": round(time.time() - t0), "first": (first[0][:260] if first else "")}
